@@ -198,6 +198,8 @@ def run_job(job):
     for case in job["cases"]:
         if case["exp"] == ["bool", "either"]:
             continue             # an exact tie of a tolerance predicate: either answer is allowed
+        if op in ("equal", "not_equal") and case["a"] == case["b"] and sa != sb:
+            continue             # exact equality of one vector stored in two systems is decided by rounding
         va = algebra.vec_of(case["a"])
         vb = algebra.vec_of(case["b"]) if case["b"] else None
         if not coords.representable(va, sa) or (vb is not None and not coords.representable(vb, sb)):
@@ -434,7 +436,7 @@ def plan_jobs(cases, tier, seed=0):
     return jobs
 
 
-def replay(cases, progs, tier="quick", seed=0, procs=16, only_programs=False):
+def replay(cases, progs, tier="quick", seed=0, procs=16, only_programs=False, only_jobs=False):
     import multiprocessing as mp
 
     jobs = plan_jobs(cases, tier, seed) if not only_programs else []
@@ -444,11 +446,13 @@ def replay(cases, progs, tier="quick", seed=0, procs=16, only_programs=False):
     aitems = [(s, fl) for n in (2, 3, 4) for s in coords.signatures(n) for fl in ("generic", "momentum")]
     if tier == "quick":
         aitems = aitems[::5]
-    if only_programs:
+    if only_programs or only_jobs:
         aitems = []
+    if only_jobs:
+        pitems = []
     from . import numbax_extra
 
-    xitems = [] if only_programs else numbax_extra.plan(tier, seed)
+    xitems = [] if (only_programs or only_jobs) else numbax_extra.plan(tier, seed)
     work = [("extra", [x]) for x in xitems if x[0] == "unary"] + [("job", [j]) for j in jobs] + [("extra", [x]) for x in xitems if x[0] != "unary"] + [("prog", pitems[i::16]) for i in range(16) if pitems[i::16]] + [("ak", [a]) for a in aitems]
     total = {"records": [], "calls": 0, "compiled": 0, "jobs": len(jobs), "programs": len(pitems), "awkward": len(aitems), "extra": len(xitems)}
     with mp.get_context("spawn").Pool(procs) as pool:
